@@ -449,7 +449,7 @@ pub fn witnesses() -> Vec<Witness> {
                 Topo::Share(2),
                 vec![pspec(Mode::PullSync, Fin::End)],
                 vec![2],
-                vec![ProbeSpec { policy: vec![React::Nothing], rest: React::Pull, pull_cap: 1000, attach: None, poke: None, late_pulls: false, drop_talkback: false }, ProbeSpec::passive()],
+                vec![ProbeSpec { policy: vec![React::Nothing], rest: React::Pull, pull_cap: 1000, attach: None, poke: None, feed: None, late_pulls: false, drop_talkback: false }, ProbeSpec::passive()],
             ),
             acts: vec![Act::Subscribe(1), Act::ProbeAct(1, React::Pull)],
         },
@@ -461,8 +461,8 @@ pub fn witnesses() -> Vec<Witness> {
                 vec![pspec(Mode::PullSync, Fin::End)],
                 vec![3],
                 vec![
-                    ProbeSpec { policy: vec![React::Nothing, React::Pull, React::Nothing], rest: React::Nothing, pull_cap: 1000, attach: None, poke: None, late_pulls: false, drop_talkback: false },
-                    ProbeSpec { policy: vec![React::Nothing, React::Terminate], rest: React::Nothing, pull_cap: 1000, attach: None, poke: None, late_pulls: false, drop_talkback: false },
+                    ProbeSpec { policy: vec![React::Nothing, React::Pull, React::Nothing], rest: React::Nothing, pull_cap: 1000, attach: None, poke: None, feed: None, late_pulls: false, drop_talkback: false },
+                    ProbeSpec { policy: vec![React::Nothing, React::Terminate], rest: React::Nothing, pull_cap: 1000, attach: None, poke: None, feed: None, late_pulls: false, drop_talkback: false },
                 ],
             ),
             acts: vec![Act::Subscribe(1), Act::ProbeAct(1, React::Pull)],
@@ -491,7 +491,7 @@ fn k3_spec() -> CaseSpec {
         Topo::Flatten(2),
         vec![pspec(Mode::Listen, Fin::End), inner1, pspec(Mode::PullSync, Fin::End)],
         vec![2, 2, 2],
-        vec![ProbeSpec { policy: vec![React::Nothing, React::Terminate], rest: React::Nothing, pull_cap: 1000, attach: None, poke: None, late_pulls: false, drop_talkback: false }],
+        vec![ProbeSpec { policy: vec![React::Nothing, React::Terminate], rest: React::Nothing, pull_cap: 1000, attach: None, poke: None, feed: None, late_pulls: false, drop_talkback: false }],
     )
 }
 
